@@ -271,3 +271,8 @@ func verifSetCwd(dir string) {}
 
 func verifRecordMapRangers(on bool) {}
 func verifMapRangers() []string     { return nil }
+
+func verifSetNumCPU(n int)        {}
+func verifTraceStart()            {}
+func verifTraceEvent(kind string) {}
+func verifScheduleCheck(cpus int) {}
